@@ -301,7 +301,7 @@ func Gen(seed uint64, tier string) any {
 	if len(sc.Ops) == 0 && sc.CutAt == 0 && !sc.BadFirst && sc.Rcode == 0 && sc.WrongID == 0 && !sc.Trailing && sc.OutFailAt == 0 && sc.Dial == "" && sc.Big == 0 && core.Chance(r, 8) {
 		sc.NoDeadlines = true
 	}
-	if sc.Alg == "" && !sc.EmptyKeys && sc.Dial == "" && core.Chance(r, 12) {
+	if !sc.EmptyKeys && sc.Dial == "" && (sc.Alg == "" || (sc.ClientKey && sc.ServerKey)) && core.Chance(r, 12) {
 		sc.Reuse = true
 	}
 	if sc.TimeoutMs != 2000 {
@@ -631,7 +631,7 @@ func (c *clientTask) RunEvent(time.Time) {
 		defer common.InstallSockets(&common.Sockets{Dial: x.dial})()
 		x.res.Bump("cover.transfer_dials_itself")
 	}
-	if sc.Reuse && !dialling && sc.Alg == "" && !sc.EmptyKeys {
+	if sc.Reuse && !dialling && !sc.EmptyKeys && (sc.Alg == "" || (sc.ClientKey && sc.ServerKey)) {
 		// an earlier transfer with the same Transfer value: three records in one envelope from a sender of its own,
 		// over a connection of its own, read to the end
 		w1, w2 := x.n.Pair(true)
@@ -640,6 +640,11 @@ func (c *clientTask) RunEvent(time.Time) {
 		q0 := new(dns.Msg)
 		q0.SetAxfr("warm.example.")
 		q0.Id = 3999
+		if sc.Alg != "" {
+			// ... a signed one, in two envelopes: the chain of that transfer ends with it
+			t.TsigSecret = secrets()
+			q0.SetTsig(keyName, sc.Alg, uint16(max(sc.Fudge, 1)), time.Now().Unix())
+		}
 		n0, e0 := 0, ""
 		if env0, err := t.In(q0, "10.0.0.9:53"); err != nil {
 			e0 = err.Error()
@@ -844,11 +849,30 @@ func (w *warmSender) RunEvent(time.Time) {
 	m.SetReply(q)
 	s := &dns.SOA{Hdr: dns.RR_Header{Name: "warm.example.", Rrtype: dns.TypeSOA, Class: dns.ClassINET, Ttl: 60}, Ns: "ns.warm.example.", Mbox: "h.warm.example.", Serial: 1, Refresh: 1, Retry: 1, Expire: 1, Minttl: 1}
 	m.Answer = []dns.RR{s, &dns.A{Hdr: dns.RR_Header{Name: "a.warm.example.", Rrtype: dns.TypeA, Class: dns.ClassINET, Ttl: 60}, A: []byte{192, 0, 2, 9}}, s}
-	b, err := m.Pack()
-	if err != nil {
-		return
+	if t, _, ok := oracle.FindTSIG(qb); ok {
+		// a signed request: two envelopes, chained as RFC 8945 wants them
+		prior := append([]byte(nil), t.MAC...)
+		for i, rrs := range [][]dns.RR{m.Answer[:2], m.Answer[2:]} {
+			e := new(dns.Msg)
+			e.SetReply(q)
+			e.Answer = rrs
+			b, err := e.Pack()
+			if err != nil {
+				return
+			}
+			b = oracle.SignTSIG(b, keyName, w.x.sc.Alg, secretGood, prior, i > 0, uint64(time.Now().Unix()), uint16(max(w.x.sc.Fudge, 1)))
+			if st, _, ok := oracle.FindTSIG(b); ok {
+				prior = append([]byte(nil), st.MAC...)
+			}
+			c.Write(oracle.Frame(b))
+		}
+	} else {
+		b, err := m.Pack()
+		if err != nil {
+			return
+		}
+		c.Write(oracle.Frame(b))
 	}
-	c.Write(oracle.Frame(b))
 	var one [1]byte
 	c.Read(one[:]) // until the receiver closes
 	c.Close()
